@@ -276,9 +276,9 @@ class bspline(object):
                 for i in range(1, self.npoly):
                     temppoly[:, i] = temppoly[:, i-1] * x2norm
             elif self.funcname == 'chebyshev':
-                temppoly = fchebyshev(x2norm, self.npoly)
+                temppoly = fchebyshev(x2norm, self.npoly).T
             elif self.funcname == 'legendre':
-                temppoly = flegendre(x2norm, self.npoly)
+                temppoly = flegendre(x2norm, self.npoly).T
             else:
                 raise ValueError('Unknown value of funcname.')
             action = np.zeros((nx, bw), dtype='d')
